@@ -450,6 +450,12 @@ class Evaluator:
         if isinstance(t, ast.UnaryOp) and isinstance(t.op, ast.Not):
             k = self.cond(t.operand, st)
             return k[4:-1] if k.startswith('not(') and k.endswith(')') and balanced(k[4:-1]) else f'not({k})'
+        if isinstance(t, ast.Compare) and len(t.ops) > 1:
+            parts, left = [], t.left
+            for op, right in zip(t.ops, t.comparators):
+                parts.append(self.cond(ast.Compare(left=left, ops=[op], comparators=[right]), st))
+                left = right
+            return 'and(' + ','.join(parts) + ')'
         if isinstance(t, ast.Compare) and len(t.ops) == 1:
             a, b = self.ev(t.left, st), self.ev(t.comparators[0], st)
             op = t.ops[0]
